@@ -1222,10 +1222,21 @@ package graphql
 //@   nosafety
 //@   functional
 //@   assigns nothing
+// (functional contract, was a frame) which definition a field name denotes on an object type: the introspection
+// entry points `__schema` / `__type` only on the query root, `__typename` on every object, otherwise the type's
+// own field of that name (nil when it has none) — C01 / C10: which resolver answers, and `__typename` everywhere
 //@ func getFieldDef
-//@   props C02
+//@   props C02 C01 C10
 //@   nosafety
 //@   assigns nothing
+//@   ensures parentType == nil ==> result == nil
+//@   ensures parentType != nil && fieldName == SchemaMetaFieldDef.Name && schema.queryType == parentType ==> result == SchemaMetaFieldDef
+//@   ensures parentType != nil && fieldName != SchemaMetaFieldDef.Name && fieldName == TypeMetaFieldDef.Name && schema.queryType == parentType ==> result == TypeMetaFieldDef
+//@   ensures parentType != nil && fieldName != SchemaMetaFieldDef.Name && fieldName != TypeMetaFieldDef.Name && fieldName == TypeNameMetaFieldDef.Name ==> result == TypeNameMetaFieldDef
+//@   ensures parentType != nil && schema.queryType != parentType && fieldName == TypeNameMetaFieldDef.Name ==> result == TypeNameMetaFieldDef
+//@   ensures parentType != nil && fieldName != SchemaMetaFieldDef.Name && fieldName != TypeMetaFieldDef.Name && fieldName != TypeNameMetaFieldDef.Name ==> calls("Fields") == 1 && result == lastresult("Fields")[fieldName]
+//@   ensures parentType != nil && schema.queryType != parentType && fieldName != TypeNameMetaFieldDef.Name ==> calls("Fields") == 1 && result == lastresult("Fields")[fieldName]
+//@   at call Fields: assert arg0 == parentType
 // C09: unvalidated documents reach planning; a type condition naming an unknown type resolves to
 // a nil Type, which must be answered (no match), not called.
 //@ func planFragmentMatches
@@ -2102,10 +2113,29 @@ package graphql
 
 // PossibleFragmentSpreads: a fragment (inline, or spread by name) is reported exactly when its type and the
 // parent type are both known and cannot overlap; located at the fragment / the spread.
+// (functional contract, was a frame) two composite types overlap when an object could be of both: the same type; an
+// object and an abstract type listing it; two abstract types sharing a possible type (by name); two different
+// objects never
 //@ func doTypesOverlap
 //@   props C02
 //@   nosafety
 //@   assigns nothing
+//@   ensures t1 == t2 ==> result
+//@   ensures t1 != t2 && typeis(t1, "*graphql.Object") && typeis(t2, "*graphql.Object") ==> !result
+//@   at call PossibleTypes#1: assert arg0 == schema && arg1 == t2
+//@   at call PossibleTypes#2: assert arg0 == schema && arg1 == old(t1)
+//@   at call PossibleTypes#3: assert arg0 == schema && arg1 == old(t1)
+//@   at call PossibleTypes#4: assert arg0 == schema && arg1 == old(t2)
+//@   loop 1 over lastresult("PossibleTypes")
+//@   loop 2 over lastresult("PossibleTypes")
+//@   loop 3 over lastresult("PossibleTypes")
+//@   loop 4 over lastresult("PossibleTypes")
+// an object against an abstract type: true exactly when found in the list (decided inside the loop or after all of it)
+//@   at return: assert t1 != t2 && typeis(t1, "*graphql.Object") && !typeis(t2, "*graphql.Object") && result ==> calls("PossibleTypes@1") == 1
+//@   at return: assert t1 != t2 && typeis(t1, "*graphql.Object") && calls("PossibleTypes@1") == 1 && !result ==> exitedloop(1)
+//@   at return: assert calls("PossibleTypes@2") == 1 && !result ==> exitedloop(2)
+//@   at return: assert calls("PossibleTypes@4") == 1 && !result ==> exitedloop(4) && exitedloop(3)
+//@   loop 3 ensures has(t1TypeNames, ttype.PrivateName) && t1TypeNames[ttype.PrivateName]
 //@ func getFragmentType
 //@   trusted
 //@   assigns nothing
